@@ -256,6 +256,29 @@ OutHandle(s, a) ==
       same |-> r.resp = g.resp, limited |-> Limited(s, a), kind |-> d.kind, echo |-> d.echo, nc |-> d.nc,
       sealed |-> d.sealed, marker |-> d.marker, hdr |-> d.hdr, reqlen |-> ReqLen(a.body)]
 
+\* C21, daemon side: ServerStats::register (ntpd/src/daemon/server.rs) as a table; action t = "Reg"
+StatCounters(nts, reason, resp) ==
+  {"received"}
+  \cup (CASE resp = "ProvideTime" -> {"accepted"}
+          [] resp = "Ignore" /\ reason = "RateLimit" -> {"rate_limited"}
+          [] resp = "Ignore" -> {"ignored"}
+          [] resp = "Deny" -> {"denied"}
+          [] resp = "NTSNak" -> {"nts_nak"})
+  \cup (IF nts THEN {"nts_received"} \cup (CASE resp = "ProvideTime" -> {"nts_accepted"}
+                                              [] resp = "Deny" -> {"nts_denied"}
+                                              [] resp = "Ignore" /\ reason = "RateLimit" -> {"nts_rate_limited"}
+                                              [] OTHER -> {})
+         ELSE {})
+C21_Counters(a) ==
+  a.t = "Reg" =>
+    LET c == StatCounters(a.nts, a.reason, a.resp)
+        main == {"accepted", "rate_limited", "ignored", "denied", "nts_nak"}
+    IN /\ "received" \in c /\ Cardinality(c \cap main) = 1
+       /\ ("accepted" \in c <=> a.resp = "ProvideTime") /\ ("denied" \in c <=> a.resp = "Deny") /\ ("nts_nak" \in c <=> a.resp = "NTSNak")
+       /\ ("rate_limited" \in c \/ "ignored" \in c <=> a.resp = "Ignore")
+       /\ (c \cap {"nts_received", "nts_accepted", "nts_denied", "nts_rate_limited"} # {} => a.nts)
+       /\ (a.nts => "nts_received" \in c) /\ (a.nts /\ a.resp = "ProvideTime" => "nts_accepted" \in c)
+
 \* TimestampedCache::is_allowed: consulted (and the slot overwritten) only after both lists passed
 PostHandle(s, a) ==
   IF a.cfg.cache > 0 /\ PassesLists(a)
@@ -266,8 +289,8 @@ PostTick(s, n) == [s EXCEPT !.cache = [k \in DOMAIN s.cache |->
                       IF s.cache[k].who = "" THEN s.cache[k] ELSE [s.cache[k] EXCEPT !.age = Min(Cutoff, @ + n)]]]
 
 \* t = "Mut": a structurally mutated datagram (C22); nothing but "no panic, one statistics entry" is predicted
-Post(s, a) == CASE a.t = "Tick" -> PostTick(s, a.n) [] a.t = "Mut" -> s [] OTHER -> PostHandle(s, a)
-Out(s, a) == IF a.t = "Handle" THEN OutHandle(s, a) ELSE NoOut
+Post(s, a) == CASE a.t = "Tick" -> PostTick(s, a.n) [] a.t \in {"Mut", "Reg"} -> s [] OTHER -> PostHandle(s, a)
+Out(s, a) == CASE a.t = "Handle" -> OutHandle(s, a) [] a.t = "Reg" -> [counters |-> StatCounters(a.nts, a.reason, a.resp)] [] OTHER -> NoOut
 
 InitState == [cache |-> [k \in 1..2 |-> [who |-> "", age |-> 0]]]
 
@@ -292,18 +315,18 @@ InitState == [cache |-> [k \in 1..2 |-> [who |-> "", age |-> 0]]]
 (* attributed to the policy properties and not to every other one.         *)
 (***************************************************************************)
 NtsIsh(a) == a.t = "Handle" /\ a.body.form = "pkt" /\ \E i \in 1..Len(a.body.items) : a.body.items[i].k \in {"auth", "cookie"}
-ConeKeys == {"tick", "plain", "nts", "mut"}
-ConeKey(s, a) == IF a.t = "Tick" THEN "tick" ELSE IF a.t = "Mut" THEN "mut" ELSE IF NtsIsh(a) THEN "nts" ELSE "plain"
+ConeKeys == {"tick", "plain", "nts", "mut", "reg"}
+ConeKey(s, a) == IF a.t = "Tick" THEN "tick" ELSE IF a.t = "Mut" THEN "mut" ELSE IF a.t = "Reg" THEN "reg" ELSE IF NtsIsh(a) THEN "nts" ELSE "plain"
 ConeKeyStr(k) == k
 ConesOf(k) ==
   LET h == k \in {"plain", "nts"} IN
   [C15 |-> IF h THEN {"bresp", "stat.reason", "panic"} ELSE {},
-   C16 |-> IF h THEN {"fits", "len", "panic"} ELSE {},
+   C16 |-> IF h THEN {"fits", "len", "blen", "panic"} ELSE {},
    C17 |-> IF h THEN {"same", "resp", "len", "blen", "panic"} ELSE {},
    C18 |-> IF h THEN {"echo", "hdr", "canary", "marker", "panic"} ELSE {},
    C19 |-> IF k = "nts" THEN {"bresp", "sealed", "nc", "cookies", "panic"} ELSE {},
    C20 |-> IF h THEN {"cache", "limited", "shadow", "panic"} ELSE {"cache"},
-   C21 |-> IF h THEN {"nstat", "statresp", "stat.nts", "stat.ver", "stat.resp", "panic"} ELSE IF k = "mut" THEN {"nstat", "statresp"} ELSE {},
+   C21 |-> IF h THEN {"nstat", "statresp", "stat.nts", "stat.ver", "stat.resp", "panic"} ELSE IF k = "mut" THEN {"nstat", "statresp"} ELSE IF k = "reg" THEN {"counters", "panic"} ELSE {},
    C22 |-> IF h \/ k = "mut" THEN {"panic"} ELSE {}]
 Cones(s, a) == ConesOf(ConeKey(s, a))
 ConeTable == [k \in ConeKeys |-> ConesOf(k)]
@@ -403,6 +426,7 @@ C21_Step(s, a) ==
     /\ (o.stat.nts \/ o.bstat.nts) => NtsSeen(b)
     /\ (Authentic(b) /\ o.bresp # "ignore") => o.bstat.nts
     /\ (Authentic(b) /\ o.resp # "ignore") => o.stat.nts
+C21_Reg(s, a) == C21_Step(s, a) /\ C21_Counters(a)
 
 \* C22: handling is total (the interesting half -- the implementation never panics -- is the replay's)
 C22_Step(s, a) == a.t = "Handle" => Out(s, a).resp \in {"ignore", "time", "deny", "nak"}
